@@ -1,4 +1,5 @@
 ----------------------------- MODULE MC_Threads -----------------------------
 EXTENDS Threads, Json
+ASSUME FarLimit
 Emit == Done => PrintT("SCHEDULE " \o ToJson([sched |-> sched, symorder |-> syms]))
 =============================================================================
